@@ -283,6 +283,12 @@ func runCase(c Case) (res result) {
 				if strings.EqualFold(comp, ".git") { // Git refuses to index ".git" in any letter case
 					dotgit = true
 				}
+				// ... and, with core.protectNTFS / protectHFS (on by default), names that those file systems would
+				// read as ".git": ".git" followed by a backslash, colon, dots or spaces, and "git~1"
+				lc := strings.ToLower(comp)
+				if strings.EqualFold(comp, "git~1") || (strings.HasPrefix(lc, ".git") && len(lc) > 4 && strings.ContainsRune("\\:. ", rune(lc[4]))) {
+					dotgit = true
+				}
 			}
 			if dotgit {
 				res.counts["indexed_files_not_creatable"]++
